@@ -14,6 +14,8 @@ import (
 	"strings"
 	"sync"
 
+	jsonpatch "gopkg.in/evanphx/json-patch.v4"
+	appsv1 "k8s.io/api/apps/v1"
 	v1 "k8s.io/api/core/v1"
 	"k8s.io/apimachinery/pkg/util/strategicpatch"
 	"k8s.io/cli-runtime/pkg/resource"
@@ -48,6 +50,7 @@ type Server struct {
 	seq     int
 	Started map[string]int // key -> seq of request start (for barrier checks)
 	Ended   map[string]int
+	ptypes  map[string][]string
 }
 
 type Fault struct {
@@ -56,7 +59,10 @@ type Fault struct {
 }
 
 var plural2kind = map[string]string{"configmaps": "ConfigMap", "secrets": "Secret", "serviceaccounts": "ServiceAccount",
-	"services": "Service", "namespaces": "Namespace", "pods": "Pod"}
+	"services": "Service", "namespaces": "Namespace", "pods": "Pod",
+	// round 4: a built-in kind with keyed lists (apps/v1) and the custom kind the kubectl test mapper knows
+	// (unit-test.test.com/v1 Widget; not in the client's scheme, so kube.Client treats it as unstructured)
+	"deployments": "Deployment", "widgets": "Widget"}
 
 func New() *Server {
 	return &Server{Objs: map[string]map[string]interface{}{}, Started: map[string]int{}, Ended: map[string]int{}}
@@ -185,6 +191,10 @@ func (s *Server) handle(method string, known bool, kind, name, key string, body 
 		s.Objs[key] = o
 		return okJSON(200, o)
 	case "PATCH":
+		if s.ptypes == nil {
+			s.ptypes = map[string][]string{}
+		}
+		s.ptypes[key] = append(s.ptypes[key], ctype)
 		if !exists {
 			return status(404, "NotFound", fmt.Sprintf("%s %q not found", strings.ToLower(kind), name))
 		}
@@ -192,15 +202,23 @@ func (s *Server) handle(method string, known bool, kind, name, key string, body 
 		var merged []byte
 		var err error
 		if strings.Contains(ctype, "strategic-merge-patch") {
+			if kind == "Widget" {
+				// custom resources have no Go type on the server: the real API server answers 415
+				return status(415, "UnsupportedMediaType", "strategic merge patch is not supported for custom resources")
+			}
 			merged, err = strategicpatch.StrategicMergePatch(orig, body, typedFor(kind))
 		} else {
-			merged, err = mergePatch(orig, body)
+			// what the API server applies for application/merge-patch+json (apiserver/pkg/endpoints/handlers/patch.go)
+			merged, err = jsonpatch.MergePatch(orig, body)
 		}
 		if err != nil {
 			return status(422, "Invalid", err.Error())
 		}
 		var o map[string]interface{}
 		json.Unmarshal(merged, &o)
+		if strings.Contains(ctype, "strategic-merge-patch") {
+			scrubTyped(o)
+		}
 		if !jsonEqual(cur, o) {
 			s.Muts = append(s.Muts, Mut{"patch", key})
 		}
@@ -231,45 +249,37 @@ func typedFor(kind string) interface{} {
 		return v1.Namespace{}
 	case "Pod":
 		return v1.Pod{}
+	case "Deployment":
+		return appsv1.Deployment{}
 	}
 	return v1.ConfigMap{}
+}
+
+// scrubTyped removes what a real API server loses when it decodes the patched document into the Go type of
+// a built-in kind: null values, and the "$setElementOrder/<field>" / "$retainKeys" directives the
+// strategic-merge library leaves in the result when it copies a patch subtree to a place the live
+// object lacked (mergeMap: "If it's not in the original document, just take the patch value").
+func scrubTyped(v interface{}) {
+	switch x := v.(type) {
+	case map[string]interface{}:
+		for k, c := range x {
+			if c == nil || strings.HasPrefix(k, "$") {
+				delete(x, k)
+				continue
+			}
+			scrubTyped(c)
+		}
+	case []interface{}:
+		for _, c := range x {
+			scrubTyped(c)
+		}
+	}
 }
 
 func jsonEqual(a, b interface{}) bool {
 	x, _ := json.Marshal(a)
 	y, _ := json.Marshal(b)
 	return bytes.Equal(x, y)
-}
-
-// mergePatch: RFC 7386 on decoded JSON.
-func mergePatch(orig, patch []byte) ([]byte, error) {
-	var o, p interface{}
-	if err := json.Unmarshal(orig, &o); err != nil {
-		return nil, err
-	}
-	if err := json.Unmarshal(patch, &p); err != nil {
-		return nil, err
-	}
-	return json.Marshal(applyMerge(o, p))
-}
-
-func applyMerge(o, p interface{}) interface{} {
-	pm, ok := p.(map[string]interface{})
-	if !ok {
-		return p
-	}
-	om, ok := o.(map[string]interface{})
-	if !ok {
-		om = map[string]interface{}{}
-	}
-	for k, v := range pm {
-		if v == nil {
-			delete(om, k)
-		} else {
-			om[k] = applyMerge(om[k], v)
-		}
-	}
-	return om
 }
 
 // TakeMuts returns and clears the effective mutations logged so far, sorted.
@@ -402,4 +412,59 @@ func (s *Server) Client() *kube.Client {
 		Client:               fake.CreateHTTPClient(s.RoundTrip),
 	}
 	return &kube.Client{Factory: tf}
+}
+
+// ---- round 4: whole objects (nested maps, lists) ----
+
+func deepCopy(o map[string]interface{}) map[string]interface{} {
+	b, _ := json.Marshal(o)
+	var c map[string]interface{}
+	json.Unmarshal(b, &c)
+	return c
+}
+
+// PutRaw stores a whole object under Kind/name of the namespace given by nskind ("Kind" or "<ns>/Kind").
+func (s *Server) PutRaw(nskind, name string, obj map[string]interface{}) {
+	ns, kind := SplitKind(nskind)
+	o := deepCopy(obj)
+	md, _ := o["metadata"].(map[string]interface{})
+	if md == nil {
+		md = map[string]interface{}{}
+		o["metadata"] = md
+	}
+	md["name"], md["namespace"] = name, ns
+	s.mu.Lock()
+	s.Objs[Key(ns, kind, name)] = o
+	s.mu.Unlock()
+}
+
+// SnapshotRaw returns key -> deep copy of the stored object.
+func (s *Server) SnapshotRaw() map[string]map[string]interface{} {
+	s.mu.Lock()
+	defer s.mu.Unlock()
+	out := map[string]map[string]interface{}{}
+	for k, o := range s.Objs {
+		out[k] = deepCopy(o)
+	}
+	return out
+}
+
+// Typed returns the Go type whose struct tags are the strategic-merge schema of the kind, or nil for a
+// kind the server holds as unstructured JSON.
+func Typed(kind string) interface{} {
+	if kind == "Widget" {
+		return nil
+	}
+	return typedFor(kind)
+}
+
+// PatchTypes returns the content types of the PATCH requests that arrived so far, per key.
+func (s *Server) PatchTypes() map[string][]string {
+	s.mu.Lock()
+	defer s.mu.Unlock()
+	out := map[string][]string{}
+	for k, v := range s.ptypes {
+		out[k] = append([]string(nil), v...)
+	}
+	return out
 }
